@@ -67,7 +67,7 @@ ROWS = {
        'cross-checked against a Lean RFC 1321 implementation; CPython struct/array semantics modelled',
   tech='Lean 4 proof (byte-level refinement to the packet figure) + translator + differential correspondence through a fake socket'),
  'C06': dict(
-  text='36 Lean theorems about the model of establish_session / the retry loop / requests / close_session against a '
+  text='38 Lean theorems about the model of establish_session / the retry loop / requests / close_session against a '
        'reference IPMI v1.5 BMC session state machine: handshake order against ANY peer (ping, Get Channel Auth '
        'Capabilities, Get Session Challenge, Activate Session, Set Session Privilege Level; each at most '
        'max_retries+1 times); for every conforming BMC configuration, every number of requests n and every loss '
@@ -78,7 +78,7 @@ ROWS = {
        'authentication choice is the strongest of offered-and-implemented for every capability byte, over the '
        'preference tuple and the implemented set regenerated from messaging.py / rmcp.py on every run; the '
        'statement-level shape of establish_session / close_session / the request builders is re-read from the AST '
-       '(Gen/SessionShape.lean, theorem handshake_shape); the clean-up close after a fault (silence over the whole retry budget or an error completion code) at ANY handshake step returns, sends Close Session for the granted id iff one was granted and leaves no session open on the BMC (close_after_failed_open, close_after_failed_open_bmc); when the BMC offers no authentication type nothing follows the capabilities exchange and the outcome is NotSupportedError (auth_none_offered_no_request); as-shipped counter-example theorems for both; histories on REUSED Rmcp / Session objects: after any history of failed / successful attempts and closes a handshake starts from a cleared Session (establish_forgets_history, lifecycle_after_any_history, close_after_failed_open_any_history; the reference BMC demands the null sequence number on Activate Session), and at most one keep-alive thread exists, none during a handshake and none after close (keepalive_at_most_one, keepalive_none_during_handshake, keepalive_none_after_close); counter-examples for the source before fixes 7494b19 / 5f3973d.',
+       '(Gen/SessionShape.lean, theorem handshake_shape); the clean-up close after a fault (silence over the whole retry budget or an error completion code) at ANY handshake step returns, sends Close Session for the granted id iff one was granted and leaves no session open on the BMC (close_after_failed_open, close_after_failed_open_bmc); when the BMC offers no authentication type nothing follows the capabilities exchange and the outcome is NotSupportedError (auth_none_offered_no_request); as-shipped counter-example theorems for both; histories on REUSED Rmcp / Session objects: after any history of failed / successful attempts and closes a handshake starts from a cleared Session (establish_forgets_history, lifecycle_after_any_history, close_after_failed_open_any_history; the reference BMC demands the null sequence number on Activate Session), and at most one keep-alive thread exists, none during a handshake and none after close (keepalive_at_most_one, keepalive_none_during_handshake, keepalive_none_after_close); counter-examples for the source before fixes 7494b19 / 5f3973d; for every user name / password up to 16 bytes incl. the empty ones, Get Session Challenge, Activate Session (header and body) and every datagram after it carry the strongest offered implemented type (chosen_type_on_every_datagram; anonymous_downgrade_counterexample).',
   note='translators harness/translate/rmcp.py, session.py; hand-written model Model/Session.lean tied per datagram byte for byte (the '
        'real Rmcp talks through a fake socket to the compiled Lean reference BMC, the same script is replayed to the '
        'model); reference BMC Spec/BmcSession.lean is a reading of IPMI v1.5 6.11-6.12; digest function is a parameter; '
@@ -97,7 +97,7 @@ ROWS = {
  'C10': dict(
   text='Lean theorems for every device content, area size, offset, length and per-request limit >= 2: read_fru_data '
        'returns exactly the stored slice, the full read the whole area, every request names the caller\'s FRU id, '
-       'write stores the bytes contiguously and raises on a short acknowledgement; a write of which the first k bytes were stored before it failed, resumed from offset+k, leaves what one complete write stores (write_resumed_exact); all write theorems for every write_length 1..255 (write_*_any_chunk; the harness assigns ipmi.write_length: 8 named sizes + random, all in thorough) and an acknowledgement larger than the chunk raises; write clause at full strength: for any peer and any chunk size the first deviating acknowledgement k ends the write with an exception after exactly k+1 requests whatever later acknowledgements would be (write_raises_at_first_count_mismatch, write_stops_at_first_bad_answer, write_all_acked_returns); every optional-argument form of read_fru_data (read_exact_any_range); an area the common header declares absent yields None after the header read alone with every request inside bytes 0..7 (absent_area_is_none, absent_multirecord_is_none), a present info / multirecord area yields exactly the stored area (present_area_exact, present_multirecord_exact); counter-examples for the source before fix 319cfb8; 33 theorems. The loops of fru.py are translated '
+       'write stores the bytes contiguously and raises on a short acknowledgement; a write of which the first k bytes were stored before it failed, resumed from offset+k, leaves what one complete write stores (write_resumed_exact); all write theorems for every write_length 1..255 (write_*_any_chunk; the harness assigns ipmi.write_length: 8 named sizes + random, all in thorough) and an acknowledgement larger than the chunk raises; write clause at full strength: for any peer and any chunk size the first deviating acknowledgement k ends the write with an exception after exactly k+1 requests whatever later acknowledgements would be (write_raises_at_first_count_mismatch, write_stops_at_first_bad_answer, write_all_acked_returns); every optional-argument form of read_fru_data (read_exact_any_range); an area the common header declares absent yields None after the header read alone with every request inside bytes 0..7 (absent_area_is_none, absent_multirecord_is_none), a present info / multirecord area yields exactly the stored area (present_area_exact, present_multirecord_exact); counter-examples for the source before fix 319cfb8; contents up to a full 64 KiB (65536 bytes; explicit ranges and writes may end at 10000h: read_exact, write_exact, read_reaches_last_byte_of_64k; the reported size is 16 bit: Spec.Fru.infoSize, read_full_of_64k_device; end_clamped_to_ffff_loses_last_byte); 36 theorems. The loops of fru.py are translated '
        'from the AST on every run (Gen/Loops10.lean) and run against a Lean reference device.',
   note='translator harness/translate/loops10.py; reference device Spec/FruDevice.lean (rejects or serves short); area '
        'parsers are C15; differential run compares outcome, bytes, full request trace and final device state; history stream: every single case again as 2nd operation of one Ipmi object, directed and random sequences of 2..6 operations incl. refused reads and writes that fault at chunk k (Spec.Fru.respondF) and are resumed, each step judged against the contents at its start and compared with the stateless model',
